@@ -14,6 +14,7 @@ import tempfile
 import warnings
 from fractions import Fraction
 
+import math
 import numpy as np
 
 from . import core
@@ -459,6 +460,15 @@ def gen_mesh3(rng, regime, nmax=5, max_cells=60):
         off = rng.choice([0.0, 1.0, 10.0, 1e3])
         p1 = [rng.uniform(-1, 1) * off * e for e in edges]
         p2 = [a + e for a, e in zip(p1, edges)]
+        if rng.random() < 0.3:
+            # a column / stack: ONE cell along an axis that is 1e4 .. 1e6 times longer than the shortest edge, corners on
+            # both sides of the origin (pmin + (pmax - pmin) need not reproduce pmax): the reader rebuilds the mesh
+            # from the cell size
+            k = rng.randrange(3)
+            n[k] = 1
+            # short decimal corners -a, m*a (as a user types them): -0.1 + (0.2 - -0.1) is not 0.2 in binary64
+            a = float(f"{rng.randint(1, 99)}e{int(math.floor(math.log10(min(edges)))) + rng.randint(4, 6)}")
+            p1[k], p2[k] = -a, rng.choice([2, 2, 3, 5]) * a
     if rng.random() < 0.3:  # corners given in any order
         for k in range(3):
             if rng.random() < 0.5:
